@@ -11,6 +11,8 @@ Import ListNotations.
 Require Import Gram.Model.Term Gram.Model.DeBruijn Gram.Model.Eval Gram.Spec.Typing Gram.Oracle.Infer Gram.Proofs.InferSound.
 Require Import Gram.Model.ModelB Gram.Proofs.CtxProofs Gram.Proofs.WeakenProofs Gram.Proofs.ConfluenceTyping Gram.Proofs.ConvConsistent Gram.Proofs.SafetyHF.
 Require Gram.Proofs.ConfluenceEval Gram.Proofs.TcSoundHF.
+Require Import Gram.Proofs.PreservationGroups Gram.Proofs.SafetyGroups.
+Require Gram.Proofs.PGTyping Gram.Proofs.PGPres Gram.Proofs.PGCounter Gram.Proofs.PGSimple.
 
 Theorem C04_whnf_sound : forall fuel G t u, whnf fuel G t = Some u -> clos_refl_trans term (red G) t u.
 Proof. exact whnf_sound. Qed.
@@ -86,4 +88,67 @@ Check C04_accepted_int_programs_yield_literals : forall f t r g v,
   tcB f [] [] [] t = Some r -> b_errs r = [] -> TcSoundHF.zk (b_st r) (b_ty r) TInt ->
   evaluate g t = Some v -> (exists z, v = TLit z) \/ div_stuck v.
 Print Assumptions C04_accepted_int_programs_yield_literals.
+
+
+(* WITH definition groups (Proofs/PG*.v, PreservationGroups.v, SafetyGroups.v). For programs whose groups have at most one
+   definition each (`sg`: recursive functions, computed definitions, nested anywhere, dependent annotations) a step keeps
+   the type, and what the checker model accepts evaluates to a value of the reported type and of the shape the property
+   names. For groups of ANY size the same holds for the sub-relation `tyH` (annotations and result type do not mention
+   the group; sound for has_type), which contains every simply typed program (`checkS`, an executable predicate; the
+   mutually recursive even/odd program is covered). For `has_type` itself and two or more mutually recursive
+   DEPENDENTLY annotated definitions, STEPWISE subject reduction is FALSE: C04_subject_reduction_fails_with_mutual_groups
+   (the evaluator replaces a group variable by an anonymous single-definition fixpoint, with which the variable is not
+   convertible; the witnesses diverge, so the property's statement about VALUES is not contradicted). *)
+Theorem C04_preservation_with_groups : forall t T t', hole_free t = true -> sg t = true -> hole_free T = true ->
+  has_type [] t T -> step t = Some t' -> has_type [] t' T /\ hole_free t' = true /\ sg t' = true.
+Proof. exact preservation_groups_sg. Qed.
+Check C04_preservation_with_groups : forall t T t', hole_free t = true -> sg t = true -> hole_free T = true ->
+  has_type [] t T -> step t = Some t' -> has_type [] t' T /\ hole_free t' = true /\ sg t' = true.
+Print Assumptions C04_preservation_with_groups.
+
+Theorem C04_accepted_values_have_the_reported_type : forall f t r g v,
+  hole_free t = true -> sg t = true ->
+  tcB f [] [] [] t = Some r -> b_errs r = [] ->
+  evaluate g t = Some v ->
+  exists T, TcSoundHF.zk (b_st r) (b_ty r) T /\ has_type [] v T.
+Proof. exact accepted_values_have_the_reported_type. Qed.
+Check C04_accepted_values_have_the_reported_type : forall f t r g v,
+  hole_free t = true -> sg t = true ->
+  tcB f [] [] [] t = Some r -> b_errs r = [] ->
+  evaluate g t = Some v ->
+  exists T, TcSoundHF.zk (b_st r) (b_ty r) T /\ has_type [] v T.
+Print Assumptions C04_accepted_values_have_the_reported_type.
+
+Theorem C04_accepted_values_have_the_reported_shape : forall f t r g v,
+  hole_free t = true -> sg t = true ->
+  tcB f [] [] [] t = Some r -> b_errs r = [] ->
+  evaluate g t = Some v -> is_value v = true ->
+  (TcSoundHF.zk (b_st r) (b_ty r) TInt -> exists z, v = TLit z) /\
+  (TcSoundHF.zk (b_st r) (b_ty r) TBool -> v = TTrue \/ v = TFalse) /\
+  (forall im A B, TcSoundHF.zk (b_st r) (b_ty r) (TPi im A B) -> exists d b, v = TLam im d b) /\
+  (TcSoundHF.zk (b_st r) (b_ty r) TType -> is_type_former v = true).
+Proof. exact accepted_values_have_the_reported_shape. Qed.
+Check C04_accepted_values_have_the_reported_shape : forall f t r g v,
+  hole_free t = true -> sg t = true ->
+  tcB f [] [] [] t = Some r -> b_errs r = [] ->
+  evaluate g t = Some v -> is_value v = true ->
+  (TcSoundHF.zk (b_st r) (b_ty r) TInt -> exists z, v = TLit z) /\
+  (TcSoundHF.zk (b_st r) (b_ty r) TBool -> v = TTrue \/ v = TFalse) /\
+  (forall im A B, TcSoundHF.zk (b_st r) (b_ty r) (TPi im A B) -> exists d b, v = TLam im d b) /\
+  (TcSoundHF.zk (b_st r) (b_ty r) TType -> is_type_former v = true).
+Print Assumptions C04_accepted_values_have_the_reported_shape.
+
+Theorem C04_groups_of_any_size_simply_typed : forall f t T v, PGSimple.checkS [] t = Some T -> evaluate f t = Some v -> has_type [] t T /\ has_type [] v T.
+Proof. exact PGSimple.simple_safe. Qed.
+Check C04_groups_of_any_size_simply_typed : forall f t T v, PGSimple.checkS [] t = Some T -> evaluate f t = Some v -> has_type [] t T /\ has_type [] v T.
+Print Assumptions C04_groups_of_any_size_simply_typed.
+
+Theorem C04_subject_reduction_fails_with_mutual_groups : exists ds b t' T, hole_free (TLet ds b) = true /\ fvl (TLet ds b) 0 = [] /\ length ds = 2 /\
+  forallb (fun p => is_value (snd p)) ds = true /\
+  has_type [] (TLet ds b) T /\ step (TLet ds b) = Some t' /\ forall T', ~ has_type [] t' T'.
+Proof. exact PGCounter.sr_fails_values. Qed.
+Check C04_subject_reduction_fails_with_mutual_groups : exists ds b t' T, hole_free (TLet ds b) = true /\ fvl (TLet ds b) 0 = [] /\ length ds = 2 /\
+  forallb (fun p => is_value (snd p)) ds = true /\
+  has_type [] (TLet ds b) T /\ step (TLet ds b) = Some t' /\ forall T', ~ has_type [] t' T'.
+Print Assumptions C04_subject_reduction_fails_with_mutual_groups.
 
